@@ -7,19 +7,20 @@ record of `FormatterFactory` and the kind table of the specification, acceptance
 namespace ZCV.LogFormatLemmas
 open ZCV ZCV.LogFormat ZCV.LogFormatSpec
 
-/-- the pending argument between items: the mapping itself until the first conversion specifier, nothing afterwards -/
-def stOf (first : Bool) : Option Value := if first then some .other else none
+/-- the pending argument between items: the mapping itself (`ok` = its `repr()` works) until the first conversion
+    specifier, nothing afterwards -/
+def stOf (ok first : Bool) : Option Arg := if first then some (.mapping ok) else none
 
 /-- the argument a specifier formats: the value of its key, or the pending argument -/
-def argOf (d : Dict) (st : Option Value) : Option Str → Option Value
+def argOf (d : Dict) (st : Option Arg) : Option Str → Option Arg
   | none => st
-  | some k => d k
+  | some k => (d k).map Arg.val
 
 def precOf : Spec → Option Nat
   | .num n => some n
   | _ => none
 
-theorem lf_evalWidth_of_ok {st st2 : Option Value} {w : Spec} (h : evalWidth st w = .ok st2) :
+theorem lf_evalWidth_of_ok {st st2 : Option Arg} {w : Spec} (h : evalWidth st w = .ok st2) :
     (SpecOk ssizeMax w ∧ st2 = st) ∨ st2 = none := by
   cases w with
   | absent => simp_all [evalWidth, SpecOk]
@@ -33,13 +34,13 @@ theorem lf_evalWidth_of_ok {st st2 : Option Value} {w : Spec} (h : evalWidth st 
     simp only [evalWidth] at h
     cases h2 : evalStar st (-(ssizeMax : Int) - 1) ssizeMax <;> simp_all [Except.map]
 
-theorem lf_evalWidth_specOk {st : Option Value} {w : Spec} (h : SpecOk ssizeMax w) : evalWidth st w = .ok st := by
+theorem lf_evalWidth_specOk {st : Option Arg} {w : Spec} (h : SpecOk ssizeMax w) : evalWidth st w = .ok st := by
   cases w with
   | absent => rfl
   | num n => simp only [SpecOk] at h; simp only [evalWidth]; rw [if_neg (by omega)]
   | star => cases h
 
-theorem lf_evalPrec_of_ok {st : Option Value} {p : Spec} {r : Option Value × Option Nat} (h : evalPrec st p = .ok r) :
+theorem lf_evalPrec_of_ok {st : Option Arg} {p : Spec} {r : Option Arg × Option Nat} (h : evalPrec st p = .ok r) :
     (SpecOk cIntMax p ∧ r = (st, precOf p)) ∨ r.1 = none := by
   cases p with
   | absent => simp_all [evalPrec, SpecOk, precOf]
@@ -54,7 +55,7 @@ theorem lf_evalPrec_of_ok {st : Option Value} {p : Spec} {r : Option Value × Op
     cases h2 : evalStar st (-(cIntMax : Int) - 1) cIntMax <;> simp_all [Except.map]
     rw [← h]
 
-theorem lf_evalPrec_specOk {st : Option Value} {p : Spec} (h : SpecOk cIntMax p) :
+theorem lf_evalPrec_specOk {st : Option Arg} {p : Spec} (h : SpecOk cIntMax p) :
     evalPrec st p = .ok (st, precOf p) := by
   cases p with
   | absent => rfl
@@ -62,7 +63,7 @@ theorem lf_evalPrec_specOk {st : Option Value} {p : Spec} (h : SpecOk cIntMax p)
   | star => cases h
 
 /-- `evalItem` on a specifier, with the key lookup factored out -/
-def evalTail (st1 : Option Value) (w p : Spec) (conv : Option Char) : Except PyErr (Option Value) :=
+def evalTail (st1 : Option Arg) (w p : Spec) (conv : Option Char) : Except PyErr (Option Arg) :=
   match evalWidth st1 w with
   | .error e => .error e
   | .ok st2 =>
@@ -75,14 +76,14 @@ def evalTail (st1 : Option Value) (w p : Spec) (conv : Option Char) : Except PyE
         match st3 with
         | none => .error .typeError
         | some v =>
-          match convCheck c pv v with
+          match argCheck c pv v with
           | .error e => .error e
           | .ok _ => .ok none
 
-theorem lf_evalTail_ok (st1 : Option Value) (w p : Spec) (conv : Option Char) (st' : Option Value) :
+theorem lf_evalTail_ok (st1 : Option Arg) (w p : Spec) (conv : Option Char) (st' : Option Arg) :
     evalTail st1 w p conv = .ok st' ↔
       st' = none ∧ SpecOk ssizeMax w ∧ SpecOk cIntMax p ∧
-      ∃ c v, conv = some c ∧ st1 = some v ∧ convCheck c (precOf p) v = .ok () := by
+      ∃ c v, conv = some c ∧ st1 = some v ∧ argCheck c (precOf p) v = .ok () := by
   constructor
   · intro h
     unfold evalTail at h
@@ -115,25 +116,25 @@ theorem lf_evalTail_ok (st1 : Option Value) (w p : Spec) (conv : Option Char) (s
     rw [lf_evalWidth_specOk hw]
     simp only [lf_evalPrec_specOk hp, hc]
 
-theorem lf_evalItem_field (d : Dict) (st : Option Value) (key : Option Str) (fl : Str) (w p : Spec)
+theorem lf_evalItem_field (d : Dict) (st : Option Arg) (key : Option Str) (fl : Str) (w p : Spec)
     (lm : Option Char) (conv : Option Char) :
     evalItem d st (.field key fl w p lm conv) =
       match key with
       | none => evalTail st w p conv
       | some k => match d k with
                   | none => .error .keyError
-                  | some v => evalTail (some v) w p conv := by
+                  | some v => evalTail (some (.val v)) w p conv := by
   cases key with
   | none => rfl
   | some k =>
     simp only [evalItem]
     cases d k <;> rfl
 
-theorem lf_evalItem_field_ok (d : Dict) (st : Option Value) (key : Option Str) (fl : Str) (w p : Spec)
-    (lm : Option Char) (conv : Option Char) (st' : Option Value) :
+theorem lf_evalItem_field_ok (d : Dict) (st : Option Arg) (key : Option Str) (fl : Str) (w p : Spec)
+    (lm : Option Char) (conv : Option Char) (st' : Option Arg) :
     evalItem d st (.field key fl w p lm conv) = .ok st' ↔
       st' = none ∧ SpecOk ssizeMax w ∧ SpecOk cIntMax p ∧
-      ∃ c v, conv = some c ∧ argOf d st key = some v ∧ convCheck c (precOf p) v = .ok () := by
+      ∃ c v, conv = some c ∧ argOf d st key = some v ∧ argCheck c (precOf p) v = .ok () := by
   rw [lf_evalItem_field]
   cases key with
   | none => exact lf_evalTail_ok st w p conv st'
@@ -141,7 +142,7 @@ theorem lf_evalItem_field_ok (d : Dict) (st : Option Value) (key : Option Str) (
     simp only [argOf]
     cases hd : d k with
     | none => simp
-    | some v => exact lf_evalTail_ok (some v) w p conv st'
+    | some v => exact lf_evalTail_ok (some (.val v)) w p conv st'
 
 /-! ## The sample record and the kind table -/
 
@@ -226,24 +227,63 @@ theorem lf_precCheck_ok (prec : Option Nat) : precCheck prec = .ok () ↔ ∀ n,
     simp only [precCheck, Option.some.injEq, forall_eq']
     split <;> simp <;> omega
 
+theorem lf_strCheck_int (n : Int) : strCheck (.int n) = .ok () ↔ n.natAbs < 10 ^ 4300 := by
+  have h1 : strCheck (.int n) = if n.natAbs < 10 ^ intMaxStrDigits then .ok () else .error .valueError := rfl
+  have h2 : intMaxStrDigits = 4300 := rfl
+  rw [h1, h2]
+  generalize (10 ^ 4300 : Nat) = B
+  by_cases h : n.natAbs < B <;> simp [h]
+
+/-- `strCheck` is the readable `Prints` of the specification -/
+theorem lf_strCheck_ok (v : Value) : strCheck v = .ok () ↔ Prints v := by
+  cases v with
+  | int n => exact lf_strCheck_int n
+  | _ => simp [strCheck, Prints]
+
+theorem lf_strCheck_error (v : Value) (e : PyErr) (h : strCheck v = .error e) : e = .valueError := by
+  cases v with
+  | int n =>
+    simp only [strCheck] at h
+    split at h
+    · cases h
+    · injection h with h; exact h.symm
+  | _ => simp [strCheck] at h
+
+theorem lf_floatLimit_small : floatLimit ≤ ((10 ^ 4300 : Nat) : Int) := by decide +kernel
+
+/-- an `int` that converts to `float` has at most 309 digits: far below the 4300-digit limit -/
+theorem lf_strCheck_of_float (n : Int) (h : -floatLimit < n ∧ n < floatLimit) : strCheck (.int n) = .ok () := by
+  rw [lf_strCheck_int]
+  have hL := lf_floatLimit_small
+  generalize (10 ^ 4300 : Nat) = B at hL ⊢
+  generalize floatLimit = F at hL h
+  omega
+
+theorem lf_decCheck_ok (prec : Option Nat) (n : Int) :
+    decCheck prec n = .ok () ↔ (∀ m, prec = some m → m ≤ cIntMax - 3) ∧ strCheck (.int n) = .ok () := by
+  unfold decCheck
+  rw [← lf_precCheck_ok]
+  cases precCheck prec <;> simp
+
 /-- a representative sample value passes exactly the conversions its kind allows -/
 theorem lf_classCheck_sample (v : Value) (hg : goodSample v = true) (cls : ConvClass) (prec : Option Nat) :
     classCheck cls prec v = .ok () ↔ (kindOfValue v).allows cls = true ∧ PrecFitsV cls prec := by
   cases v with
   | str s =>
     simp only [goodSample, bne_iff_ne, ne_eq] at hg
-    cases cls <;> simp [classCheck, kindOfValue, Kind.allows, PrecFitsV, hg]
+    cases cls <;> simp [classCheck, strCheck, kindOfValue, Kind.allows, PrecFitsV, hg]
   | int n =>
     simp only [goodSample, decide_eq_true_eq] at hg
+    have hs := lf_strCheck_of_float n hg
     by_cases hc : 0 ≤ n ∧ n ≤ maxUnicode
-    · cases cls <;> simp [classCheck, kindOfValue, Kind.allows, PrecFitsV, hg, hc, lf_precCheck_ok]
-    · cases cls <;> simp [classCheck, kindOfValue, Kind.allows, PrecFitsV, hg, hc, lf_precCheck_ok]
+    · cases cls <;> simp [classCheck, kindOfValue, Kind.allows, PrecFitsV, hg, hc, hs, lf_precCheck_ok, lf_decCheck_ok]
+    · cases cls <;> simp [classCheck, kindOfValue, Kind.allows, PrecFitsV, hg, hc, hs, lf_precCheck_ok, lf_decCheck_ok]
   | float k =>
     simp only [goodSample, beq_iff_eq] at hg
     subst hg
-    cases cls <;> simp [classCheck, kindOfValue, Kind.allows, PrecFitsV, lf_precCheck_ok]
-  | none => cases cls <;> simp [classCheck, kindOfValue, Kind.allows, PrecFitsV]
-  | other => cases cls <;> simp [classCheck, kindOfValue, Kind.allows, PrecFitsV]
+    cases cls <;> simp [classCheck, strCheck, kindOfValue, Kind.allows, PrecFitsV, lf_precCheck_ok]
+  | none => cases cls <;> simp [classCheck, strCheck, kindOfValue, Kind.allows, PrecFitsV]
+  | other => cases cls <;> simp [classCheck, strCheck, kindOfValue, Kind.allows, PrecFitsV]
 
 /-! ## Acceptance of one item against the sample record -/
 
@@ -254,14 +294,34 @@ theorem lf_convCheck_ok (c : Char) (prec : Option Nat) (v : Value) :
 
 theorem lf_classCheck_other (cls : ConvClass) (prec : Option Nat) :
     classCheck cls prec .other = .ok () ↔ cls = .text := by
-  cases cls <;> simp [classCheck]
+  cases cls <;> simp [classCheck, strCheck]
 
-theorem lf_stOf_some (first : Bool) (v : Value) : stOf first = some v ↔ first = true ∧ v = .other := by
+theorem lf_stOf_some (ok first : Bool) (a : Arg) : stOf ok first = some a ↔ first = true ∧ a = .mapping ok := by
   cases first <;> simp [stOf, eq_comm]
 
-theorem lf_item_sample (first : Bool) (it : Item) (st' : Option Value) :
-    evalItem sampleDict (stOf first) it = .ok st' ↔
-      ItemAccepted first it ∧ st' = stOf (first && !isSpecifier it) := by
+/-- a conversion of the mapping itself: only `s r a`, and the mapping must print -/
+theorem lf_argCheck_mapping (c : Char) (prec : Option Nat) (ok : Bool) :
+    argCheck c prec (.mapping ok) = .ok () ↔ (∃ cls, classOf c = some cls ∧ cls = .text) ∧ ok = true := by
+  unfold argCheck
+  cases hc : convCheck c prec .other with
+  | error e =>
+    simp only [reduceCtorEq, false_iff, not_and]
+    rintro ⟨cls, hcls, rfl⟩
+    have := (lf_convCheck_ok c prec .other).mpr ⟨.text, hcls, rfl⟩
+    rw [hc] at this; cases this
+  | ok u =>
+    obtain ⟨cls, hcls, hck⟩ := (lf_convCheck_ok c prec .other).mp hc
+    have := (lf_classCheck_other cls prec).mp hck
+    cases ok <;> simp [hcls, this]
+
+theorem lf_argOf_key (d : Dict) (st : Option Arg) (k : Str) (a : Arg) :
+    argOf d st (some k) = some a ↔ ∃ v, d k = some v ∧ a = .val v := by
+  simp only [argOf]
+  cases d k <;> simp [eq_comm]
+
+theorem lf_item_sample (first : Bool) (it : Item) (st' : Option Arg) :
+    evalItem sampleDict (stOf true first) it = .ok st' ↔
+      ItemAccepted first it ∧ st' = stOf true (first && !isSpecifier it) := by
   cases it with
   | lit s => simp [evalItem, ItemAccepted, isSpecifier, eq_comm]
   | percent => simp [evalItem, ItemAccepted, isSpecifier, eq_comm]
@@ -269,46 +329,47 @@ theorem lf_item_sample (first : Bool) (it : Item) (st' : Option Value) :
   | field key fl w p lm conv =>
     rw [lf_evalItem_field_ok]
     simp only [ItemAccepted, isSpecifier, Bool.not_true, Bool.and_false]
-    have hst : stOf false = none := rfl
+    have hst : stOf true false = none := rfl
     rw [hst]
     constructor
-    · rintro ⟨rfl, hw, hp, c, v, rfl, harg, hc⟩
+    · rintro ⟨rfl, hw, hp, c, a, rfl, harg, hc⟩
       refine ⟨⟨hw, hp, c, ?_⟩, rfl⟩
-      obtain ⟨cls, hcls, hck⟩ := (lf_convCheck_ok _ _ _).mp hc
-      refine ⟨cls, rfl, hcls, ?_⟩
       cases key with
       | none =>
         simp only [argOf] at harg
-        obtain ⟨hf, rfl⟩ := (lf_stOf_some _ _).mp harg
-        exact ⟨hf, (lf_classCheck_other _ _).mp hck⟩
+        obtain ⟨hf, rfl⟩ := (lf_stOf_some _ _ _).mp harg
+        obtain ⟨⟨cls, hcls, rfl⟩, _⟩ := (lf_argCheck_mapping _ _ _).mp hc
+        exact ⟨.text, rfl, hcls, hf, rfl⟩
       | some k =>
-        simp only [argOf] at harg
-        obtain ⟨hal, hpf⟩ := (lf_classCheck_sample v (lf_sample_good_of k v harg) cls _).mp hck
-        exact ⟨kindOfValue v, (lf_fieldKinds_mem _ _).mpr ⟨v, harg, rfl⟩, hal, (lf_precFits_iff _ _).mp hpf⟩
+        obtain ⟨v, hv, rfl⟩ := (lf_argOf_key _ _ _ _).mp harg
+        obtain ⟨cls, hcls, hck⟩ := (lf_convCheck_ok _ _ _).mp hc
+        refine ⟨cls, rfl, hcls, ?_⟩
+        obtain ⟨hal, hpf⟩ := (lf_classCheck_sample v (lf_sample_good_of k v hv) cls _).mp hck
+        exact ⟨kindOfValue v, (lf_fieldKinds_mem _ _).mpr ⟨v, hv, rfl⟩, hal, (lf_precFits_iff _ _).mp hpf⟩
     · rintro ⟨⟨hw, hp, c, cls, rfl, hcls, hk⟩, rfl⟩
       refine ⟨rfl, hw, hp, c, ?_⟩
       cases key with
       | none =>
         obtain ⟨hf, rfl⟩ := hk
-        refine ⟨.other, rfl, (lf_stOf_some _ _).mpr ⟨hf, rfl⟩, ?_⟩
-        exact (lf_convCheck_ok _ _ _).mpr ⟨.text, hcls, rfl⟩
+        exact ⟨.mapping true, rfl, (lf_stOf_some _ _ _).mpr ⟨hf, rfl⟩,
+          (lf_argCheck_mapping _ _ _).mpr ⟨⟨.text, hcls, rfl⟩, rfl⟩⟩
       | some k =>
         obtain ⟨kind, hmem, hal, hpf⟩ := hk
         obtain ⟨v, hv, rfl⟩ := (lf_fieldKinds_mem _ _).mp hmem
-        refine ⟨v, rfl, hv, (lf_convCheck_ok _ _ _).mpr ⟨cls, hcls, ?_⟩⟩
+        refine ⟨.val v, rfl, (lf_argOf_key _ _ _ _).mpr ⟨v, hv, rfl⟩, (lf_convCheck_ok _ _ _).mpr ⟨cls, hcls, ?_⟩⟩
         exact (lf_classCheck_sample v (lf_sample_good_of k v hv) cls _).mpr ⟨hal, (lf_precFits_iff _ _).mpr hpf⟩
 
 theorem lf_items_sample (first : Bool) (items : List Item) :
-    runItems sampleDict (stOf first) items = .ok () ↔ ItemsAccepted first items := by
+    runItems sampleDict (stOf true first) items = .ok () ↔ ItemsAccepted first items := by
   induction items generalizing first with
   | nil => simp [runItems, ItemsAccepted]
   | cons it rest ih =>
     simp only [runItems, ItemsAccepted]
-    cases he : evalItem sampleDict (stOf first) it with
+    cases he : evalItem sampleDict (stOf true first) it with
     | error e =>
       simp only [reduceCtorEq, false_iff, not_and]
       intro ha
-      have := (lf_item_sample first it (stOf (first && !isSpecifier it))).mpr ⟨ha, rfl⟩
+      have := (lf_item_sample first it (stOf true (first && !isSpecifier it))).mpr ⟨ha, rfl⟩
       rw [he] at this; cases this
     | ok st' =>
       obtain ⟨ha, rfl⟩ := (lf_item_sample first it st').mp he
@@ -329,12 +390,14 @@ theorem lf_itemGood_true (it : Item) : itemGood (fun _ => True) it := by
     | some c => intro _ _; trivial
   | _ => trivial
 
+/-- `ok` = `repr()` of the record's attribute dictionary works; it is needed for a specifier without `(key)` only -/
 theorem lf_item_safe (adm : Kind → Value → Prop) (good : ConvClass → Prop) (it : Item)
     (H : ∀ kind v cls prec, adm kind v → kind.allows cls = true → good cls → PrecFitsV cls prec →
       classCheck cls prec v = .ok ())
     (r : Dict) (hr : ∀ k kind, (k, kind) ∈ fieldKinds → itemKey it = some k → ∃ v, r k = some v ∧ adm kind v)
+    (ok : Bool) (hb : isBare it = true → ok = true)
     (first : Bool) (ha : ItemAccepted first it) (hg : itemGood good it) :
-    evalItem r (stOf first) it = .ok (stOf (first && !isSpecifier it)) := by
+    evalItem r (stOf ok first) it = .ok (stOf ok (first && !isSpecifier it)) := by
   cases it with
   | lit s => simp [evalItem, isSpecifier]
   | percent => simp [evalItem, isSpecifier]
@@ -346,11 +409,12 @@ theorem lf_item_safe (adm : Kind → Value → Prop) (good : ConvClass → Prop)
     cases key with
     | none =>
       obtain ⟨hf, rfl⟩ := hk
-      exact ⟨.other, rfl, (lf_stOf_some _ _).mpr ⟨hf, rfl⟩, (lf_convCheck_ok _ _ _).mpr ⟨.text, hcls, rfl⟩⟩
+      exact ⟨.mapping ok, rfl, (lf_stOf_some _ _ _).mpr ⟨hf, rfl⟩,
+        (lf_argCheck_mapping _ _ _).mpr ⟨⟨.text, hcls, rfl⟩, hb rfl⟩⟩
     | some k =>
       obtain ⟨kind, hmem, hal, hpf⟩ := hk
       obtain ⟨v, hv, hadm⟩ := hr k kind hmem rfl
-      refine ⟨v, rfl, hv, (lf_convCheck_ok _ _ _).mpr ⟨cls, hcls, ?_⟩⟩
+      refine ⟨.val v, rfl, (lf_argOf_key _ _ _ _).mpr ⟨v, hv, rfl⟩, (lf_convCheck_ok _ _ _).mpr ⟨cls, hcls, ?_⟩⟩
       exact H kind v cls _ hadm hal (hg cls hcls) ((lf_precFits_iff _ _).mpr hpf)
 
 theorem lf_items_safe (adm : Kind → Value → Prop) (good : ConvClass → Prop)
@@ -358,15 +422,17 @@ theorem lf_items_safe (adm : Kind → Value → Prop) (good : ConvClass → Prop
       classCheck cls prec v = .ok ())
     (r : Dict) (items : List Item)
     (hr : ∀ k kind, (k, kind) ∈ fieldKinds → (∃ it ∈ items, itemKey it = some k) → ∃ v, r k = some v ∧ adm kind v)
+    (ok : Bool) (hb : (∃ it ∈ items, isBare it = true) → ok = true)
     (first : Bool) (ha : ItemsAccepted first items) (hg : ∀ it ∈ items, itemGood good it) :
-    runItems r (stOf first) items = .ok () := by
+    runItems r (stOf ok first) items = .ok () := by
   induction items generalizing first with
   | nil => rfl
   | cons it rest ih =>
     simp only [runItems]
-    rw [lf_item_safe adm good it H r (fun k kind hm hk => hr k kind hm ⟨it, List.mem_cons_self, hk⟩) first ha.1
-      (hg it List.mem_cons_self)]
-    exact ih (fun k kind hm ⟨x, hx, hk⟩ => hr k kind hm ⟨x, List.mem_cons_of_mem _ hx, hk⟩) _ ha.2
+    rw [lf_item_safe adm good it H r (fun k kind hm hk => hr k kind hm ⟨it, List.mem_cons_self, hk⟩) ok
+      (fun h => hb ⟨it, List.mem_cons_self, h⟩) first ha.1 (hg it List.mem_cons_self)]
+    exact ih (fun k kind hm ⟨x, hx, hk⟩ => hr k kind hm ⟨x, List.mem_cons_of_mem _ hx, hk⟩)
+      (fun ⟨x, hx, h⟩ => hb ⟨x, List.mem_cons_of_mem _ hx, h⟩) _ ha.2
       (fun x hx => hg x (List.mem_cons_of_mem _ hx))
 
 theorem lf_floatLimit_big : (2 : Int) ^ 64 ≤ floatLimit := by decide +kernel
@@ -377,26 +443,32 @@ theorem lf_classCheck_admitsWide (kind : Kind) (v : Value) (cls : ConvClass) (pr
     classCheck cls prec v = .ok () := by
   have hL := lf_floatLimit_big
   cases kind with
-  | text => cases cls <;> simp_all [Kind.allows, classCheck]
-  | object => cases cls <;> simp_all [Kind.allows, classCheck]
+  | text =>
+    have hs := (lf_strCheck_ok v).mpr hadm
+    cases cls <;> simp_all [Kind.allows, classCheck]
+  | object =>
+    have hs := (lf_strCheck_ok v).mpr hadm
+    cases cls <;> simp_all [Kind.allows, classCheck]
   | smallInt =>
     obtain ⟨n, rfl, h0, h1⟩ := hadm
     have h2 : -floatLimit < n ∧ n < floatLimit := by omega
     have h3 : 0 ≤ n ∧ n ≤ maxUnicode := by simp only [maxUnicode]; omega
-    cases cls <;> simp_all [Kind.allows, classCheck, PrecFitsV, lf_precCheck_ok]
+    have hs := lf_strCheck_of_float n h2
+    cases cls <;> simp_all [Kind.allows, classCheck, PrecFitsV, lf_precCheck_ok, lf_decCheck_ok]
   | bigInt =>
     obtain ⟨n, rfl, h0, h1⟩ := hadm
     have h2 : -floatLimit < n ∧ n < floatLimit := ⟨h0, h1⟩
-    cases cls <;> simp_all [Kind.allows, classCheck, PrecFitsV, lf_precCheck_ok]
+    have hs := lf_strCheck_of_float n h2
+    cases cls <;> simp_all [Kind.allows, classCheck, PrecFitsV, lf_precCheck_ok, lf_decCheck_ok]
   | real =>
     cases hadm
-    cases cls <;> simp_all [Kind.allows, classCheck, PrecFitsV, lf_precCheck_ok]
+    cases cls <;> simp_all [Kind.allows, classCheck, strCheck, PrecFitsV, lf_precCheck_ok]
 
 theorem lf_admits_wide (kind : Kind) (v : Value) (h : kind.admits v) : kind.admitsWide v := by
   have hL := lf_floatLimit_big
   cases kind with
-  | text => trivial
-  | object => trivial
+  | text => obtain ⟨s, rfl⟩ := h; trivial
+  | object => exact h
   | smallInt => exact h
   | bigInt =>
     obtain ⟨n, rfl, h0, h1⟩ := h
@@ -412,14 +484,15 @@ theorem lf_classCheck_admitsTyped (kind : Kind) (v : Value) (cls : ConvClass) (p
   | smallInt =>
     obtain ⟨n, rfl, h0, h1⟩ := hadm
     have h2 : -floatLimit < n ∧ n < floatLimit := ⟨h0, h1⟩
-    cases cls <;> simp_all [Kind.allows, classCheck, PrecFitsV, lf_precCheck_ok]
+    have hs := lf_strCheck_of_float n h2
+    cases cls <;> simp_all [Kind.allows, classCheck, PrecFitsV, lf_precCheck_ok, lf_decCheck_ok]
   | text => exact lf_classCheck_admitsWide .text v cls prec hadm hal trivial hpf
   | object => exact lf_classCheck_admitsWide .object v cls prec hadm hal trivial hpf
   | bigInt => exact lf_classCheck_admitsWide .bigInt v cls prec hadm hal trivial hpf
   | real => exact lf_classCheck_admitsWide .real v cls prec hadm hal trivial hpf
 
 theorem lf_admitsB (kind : Kind) (v : Value) (h : kind.admitsB v = true) : kind.admits v := by
-  cases kind <;> cases v <;> simp_all [Kind.admitsB, Kind.admits]
+  cases kind <;> cases v <;> simp_all [-Nat.reducePow, Kind.admitsB, Kind.admits, Prints]
   rename_i k
   cases k <;> simp_all
 
@@ -448,9 +521,71 @@ theorem lf_ordinaryFor_of_table (fmt : Str) (tbl : List (Str × Value)) (h : ord
       rw [hl] at this
       exact ⟨v, rfl, lf_admitsB kind v this⟩
 
+/-! ## The mapping itself: `MappingPrints`, tables -/
+
+theorem lf_mappingPrints_iff (d : Dict) : MappingPrints d ↔ Printable d := by
+  unfold MappingPrints Printable
+  exact ⟨fun h k v hv => (lf_strCheck_ok v).mp (h k v hv), fun h k v hv => (lf_strCheck_ok v).mpr (h k v hv)⟩
+
+theorem lf_tablePrints_iff (tbl : List (Str × Value)) : tablePrints tbl = true ↔ MappingPrints (lookup tbl) := by
+  unfold tablePrints MappingPrints
+  rw [List.all_eq_true]
+  constructor
+  · intro h k v hv
+    have := h (k, v) (lf_lookup_mem hv)
+    simpa only [hv, decide_eq_true_eq] using this
+  · intro h p _
+    cases hl : lookup tbl p.1 with
+    | none => rfl
+    | some v => simpa only [decide_eq_true_eq] using h p.1 v hl
+
+theorem lf_printable_of_table (tbl : List (Str × Value)) (h : tablePrints tbl = true) : Printable (lookup tbl) :=
+  (lf_mappingPrints_iff _).mp ((lf_tablePrints_iff tbl).mp h)
+
+open Classical in
+theorem lf_formatRun_on (fmt : Str) (d : Dict) (ok : Bool) (h : ok = true ↔ MappingPrints d) :
+    formatRun fmt d = formatRunOn ok fmt d := by
+  unfold formatRun
+  congr 1
+  cases ok with
+  | true => exact decide_eq_true (h.mp rfl)
+  | false => exact decide_eq_false (fun hp => by have := h.mpr hp; cases this)
+
+/-- the noncomputable `formatRun` on a mapping given as a table is the executable `formatRunTable` -/
+theorem lf_formatRun_table (fmt : Str) (tbl : List (Str × Value)) :
+    formatRun fmt (lookup tbl) = formatRunTable fmt tbl :=
+  lf_formatRun_on fmt (lookup tbl) (tablePrints tbl) (lf_tablePrints_iff tbl)
+
+theorem lf_formatSafe_table (fmt : Str) (tbl : List (Str × Value)) :
+    formatSafe fmt (lookup tbl) = formatSafeTable fmt tbl := by
+  unfold formatSafe formatSafeTable
+  rw [lf_formatRun_table]
+
+theorem lf_sample_prints : tablePrints sampleVars = true := by decide +kernel
+
+theorem lf_formatRun_sample (fmt : Str) : formatRun fmt sampleDict = runItems sampleDict (stOf true true) (parse fmt) := by
+  unfold sampleDict
+  rw [lf_formatRun_table]
+  unfold formatRunTable formatRunOn
+  rw [lf_sample_prints]
+  rfl
+
+/-- what `formatRun` is on a record: the items are evaluated with the mapping pending, `ok` = the mapping prints -/
+theorem lf_formatRun_eq (fmt : Str) (r : Dict) :
+    ∃ ok : Bool, (ok = true ↔ Printable r) ∧ formatRun fmt r = runItems r (stOf ok true) (parse fmt) := by
+  by_cases h : MappingPrints r
+  · exact ⟨true, by simp [← lf_mappingPrints_iff, h], lf_formatRun_on fmt r true (by simp [h])⟩
+  · exact ⟨false, by simp [← lf_mappingPrints_iff, h], lf_formatRun_on fmt r false (by simp [h])⟩
+
 theorem lf_accepts_iff (fmt : Str) :
     accepts fmt = true ↔ formatRun (effective fmt) sampleDict = .ok () ∧ validatorSearch (effective fmt) = true := by
   unfold accepts loadCheck buildFormatter
+  rw [← lf_formatRun_table]
+  change (match (match formatRun (effective fmt) sampleDict with
+                 | .error e => Except.error e
+                 | .ok _ => if validatorSearch (effective fmt) = true then Except.ok () else Except.error PyErr.valueError) with
+          | .ok _ => true
+          | .error _ => false) = true ↔ _
   cases formatRun (effective fmt) sampleDict with
   | error e => simp
   | ok u => cases h : validatorSearch (effective fmt) <;> simp
